@@ -229,6 +229,107 @@ def rule_c(ctx, f, gm=None):
     ctx.ob(R, f.qname, "table has 2^(dim-1) corners per face and side", alloc == ["np.zeros((self.num_faces, 2, 2 ** (self.dim - 1)), dtype=int)"], str(alloc), f.node)
 
 
+def _factors(t):
+    """Factors of a product term: np.prod over a literal array / list, nested `*`; ones dropped.  None if t is no such product."""
+    from ..fold import Arr, Opaque, Sym, is_num
+
+    if isinstance(t, Opaque):
+        return [t]
+    if is_num(t):
+        return [] if t == 1 else None
+    if isinstance(t, Sym) and t.fn in ("np.prod", "math.prod") and len(t.args) == 1 and not t.kw:
+        x = t.args[0]
+        xs = x.flat() if isinstance(x, Arr) else (list(x) if isinstance(x, (list, tuple)) else None)
+        if xs is None:
+            return None
+        out = []
+        for v in xs:
+            f = _factors(v)
+            if f is None:
+                return None
+            out += f
+        return out
+    if isinstance(t, Sym) and t.fn == "*" and t.recv is None:
+        out = []
+        for v in t.args:
+            f = _factors(v)
+            if f is None:
+                return None
+            out += f
+        return out
+    return None
+
+
+def _grid_init(ctx, R, m, init):
+    """Grid.__init__ folded on a symbolic shape (1-3 axes) and voxel sizes given as a list resp. as one scalar, with _setup replaced by a stub
+    that hands out one token per table it assigns: dim, voxel sizes and face areas are compared with the documented values, and no table
+    may be touched after set-up."""
+    from ..fold import Arr, Folder, Obj, Opaque, Raised, Refuse, Sym
+    from ..terms import nf
+
+    setup = m.func(MOD, "Grid._setup")
+    tables = sorted({t.attr for s_ in ast.walk(setup.node) if isinstance(s_, (ast.Assign, ast.AnnAssign, ast.AugAssign))
+                     for t in (s_.targets if isinstance(s_, ast.Assign) else [s_.target])
+                     if isinstance(t, ast.Attribute) and isinstance(t.value, ast.Name) and t.value.id == setup.params[0]})
+    ctx.need(len(tables) >= 8, "Grid._setup: fewer than 8 tables assigned")
+    for d in (1, 2, 3):
+        for mode in ("list", "scalar"):
+            ctx.instance(R)
+            so = Obj("self", {"__class__": "Grid"})
+            state = {}
+
+            def stub(a, k, so=so, state=state):
+                state["before"] = dict(so.fields)
+                for tname in tables:
+                    so.fields[tname] = Opaque("table", tname)
+                state["tokens"] = {tname: so.fields[tname] for tname in tables}
+                return None
+            so.fields["_setup"] = stub
+            fo = Folder(symbolic=True)
+            fo.func_stack.append(init.node)
+            fo.fold_all_methods = True
+            shape = [Opaque("int", f"N{k}") for k in range(d)]
+            hs = [Opaque("float", f"h{k}") for k in range(d)]
+            vs = list(hs) if mode == "list" else Opaque("float", "H")
+            what = f"dim {d}, voxel sizes given as a {mode}"
+            try:
+                fo.call(init.node, [so, shape, vs])
+            except (Refuse, Raised) as e:
+                ctx.ob(R, init.qname, f"{what}: constructor folds", False, f"fold of Grid.__init__ not found to be possible: {e}", init.node)
+                continue
+            if "before" not in state:
+                ctx.ob(R, init.qname, f"{what}: the constructor calls _setup", False, "call of self._setup not found in the fold", init.node)
+                continue
+            F = so.fields
+            ctx.ob(R, init.qname, f"{what}: dim = number of axes of the shape", F.get("dim") == d, f"dim = {nf(F.get('dim'))}", init.node, evidence=isinstance(F.get("dim"), int))
+            want_h = hs if mode == "list" else [vs] * d
+            got_h = F.get("voxel_size")
+            got_l = got_h.flat() if isinstance(got_h, Arr) else (list(got_h) if isinstance(got_h, (list, tuple)) else None)
+            shape_dep = lambda t: any(f"N{k}" in nf(t) for k in range(d))  # noqa: E731
+            if got_l is not None and len(got_l) == d and all(x is y for x, y in zip(got_l, want_h)):
+                ctx.ob(R, init.qname, f"{what}: voxel_size holds one size per axis, as passed", True, "", init.node)
+            else:
+                ctx.ob(R, init.qname, f"{what}: voxel_size holds one size per axis, as passed", False,
+                       f"voxel_size = {nf(got_h)[:120]}" + ("; it depends on the number of cells" if shape_dep(got_h) else " -- per-axis sizes not found in this form"), init.node, evidence=shape_dep(got_h))
+            fv = F.get("face_vol")
+            fv_l = fv.data if isinstance(fv, Arr) else (list(fv) if isinstance(fv, (list, tuple)) else None)
+            for ax in range(d):
+                want = [want_h[k] for k in range(d) if k != ax]
+                t = fv_l[ax] if fv_l is not None and len(fv_l) == d else None
+                fac = _factors(t) if t is not None else None
+                ok = fac is not None and sorted(map(id, fac)) == sorted(map(id, want))
+                dep = t is not None and shape_dep(t)
+                ctx.ob(R, init.qname, f"{what}: face_vol[{ax}] is the product of the voxel sizes of the other axes", ok,
+                       (f"face_vol[{ax}] = {nf(t)[:140]}" + ("; a face area that depends on the number of cells (single-cell axes lose their extent)" if dep else
+                                                            (f"; the other axes have sizes {[nf(x) for x in want]}" if fac is not None else " -- product of the other sizes not found in this form"))) if t is not None else "face_vol not found", init.node,
+                       evidence=dep or fac is not None)
+            # nothing is touched after set-up
+            changed = [tname for tname in tables if F.get(tname) is not state["tokens"][tname]]
+            changed += [kk for kk, vv in state["before"].items() if kk in ("dim", "shape", "voxel_size", "face_vol") and F.get(kk) is not vv]
+            ctx.ob(R, init.qname, f"{what}: the constructor leaves the tables of _setup (and what it computed before) as they are", not changed,
+                   "; ".join(f"self.{tname} is re-stored as {nf(F.get(tname))[:90]}" for tname in changed[:3]) + " -- a conversion after set-up (narrower dtype, copy with other values) changes the 'no face' marker -1 and large indices", init.node, evidence=True)
+
+
 def rule_d(ctx):
     R = "C07.d"
     ctx.rule(R, "image-derived grids: generate_grid passes image.num_voxels and image.voxel_size (both in matrix order) to Grid; a list of "
@@ -252,10 +353,7 @@ def rule_d(ctx):
             a1 = env.get(norm(bound[init_params[1]]), norm(bound[init_params[1]]))
     ctx.ob(R, g.qname, "Grid(image.num_voxels, image.voxel_size)", ok and a0 == f"{p}.num_voxels" and a1 == f"{p}.voxel_size", f"Grid({a0}, {a1})", g.node)
     init = m.func(MOD, "Grid.__init__")
-    attrs = {norm(s.targets[0]): norm(s.value) for s in ast.walk(init.node) if isinstance(s, ast.Assign)}
-    ctx.ob(R, init.qname, "dim = len(shape)", attrs.get("self.dim") == "len(shape)", attrs.get("self.dim", ""), init.node)
-    ctx.ob(R, init.qname, "voxel_size: list -> array, scalar -> constant array", attrs.get("self.voxel_size") == "np.array(voxel_size) if isinstance(voxel_size, list) else voxel_size * np.ones(self.dim)", attrs.get("self.voxel_size", ""), init.node)
-    ctx.ob(R, init.qname, "face_vol[d] = prod of the voxel sizes of the other axes", attrs.get("self.face_vol") == "[np.prod(self.voxel_size[np.delete(np.arange(self.dim), d)]) for d in range(self.dim)]", attrs.get("self.face_vol", ""), init.node)
+    _grid_init(ctx, R, m, init)
     ctx.floor(R, 1)
 
 
